@@ -218,10 +218,17 @@ impl Request {
         if let Some(content_length) = headers.get(&HeaderType::ContentLength) {
             let content_length: usize =
                 content_length.parse().map_err(|_| RequestError::Request)?;
-            let mut content_buf: Vec<u8> = vec![0u8; content_length];
+            // Read the body, allocating only as the bytes actually arrive rather than trusting the claimed length
+            let mut content_buf: Vec<u8> = Vec::new();
             reader
-                .read_exact(&mut content_buf)
+                .by_ref()
+                .take(content_length as u64)
+                .read_to_end(&mut content_buf)
                 .map_err(|_| RequestError::Stream)?;
+
+            if content_buf.len() != content_length {
+                return Err(RequestError::Stream);
+            }
 
             Ok(Self {
                 method,
@@ -318,11 +325,17 @@ impl Request {
         if let Some(content_length) = headers.get(&HeaderType::ContentLength) {
             let content_length: usize =
                 content_length.parse().map_err(|_| RequestError::Request)?;
-            let mut content_buf: Vec<u8> = vec![0u8; content_length];
-            reader
-                .read_exact(&mut content_buf)
+            // Read the body, allocating only as the bytes actually arrive rather than trusting the claimed length
+            let mut content_buf: Vec<u8> = Vec::new();
+            (&mut reader)
+                .take(content_length as u64)
+                .read_to_end(&mut content_buf)
                 .await
                 .map_err(|_| RequestError::Stream)?;
+
+            if content_buf.len() != content_length {
+                return Err(RequestError::Stream);
+            }
 
             Ok(Self {
                 method,
